@@ -113,7 +113,7 @@ class BodyEval:
             t = x
             key = callee_key(t.callee)
             if key in ("std::ops::DerefMut::deref_mut", "std::ops::Deref::deref", "std::ops::IndexMut::index_mut",
-                       "std::ops::Index::index", "std::convert::AsMut::as_mut") and t.args and t.args[0].place is not None:
+                       "std::convert::AsMut::as_mut") and t.args and t.args[0].place is not None:
                 base = self.operand_ref_target(t.args[0], depth + 1)
                 if base is None:
                     return None
